@@ -422,6 +422,14 @@ def jobs_for(tier):
     j += [lambda: g2_ob("TwistPoint::point_add", 2, chk_add, "point_add_mixed"), lambda: g2_ob("twist_point_add_full", 2, chk_add, "point_add_full"),
           lambda: g2_ob("TwistPoint::point_sub", 2, chk_sub, "point_sub"), lambda: g2_ob("TwistPoint::point_double", 1, chk_dbl, "point_double"),
           lambda: g2_ob("TwistPoint::point_neg", 1, chk_neg, "point_neg"), lambda: g2_ob("TwistPoint::point_equals", 2, chk_equals, "point_equals")]
+    R = 1 << 256
+    cp = {pow(R, 2, P9): 2, R % P9: 1, 1: 0}
+    mm = {"mont_mul": "montmul", "fp::mont_mul": "montmul"}
+    fe = {FE + "fp_mul": "montmul", FE + "fp_sqr": "montmulsqr"}
+    j += [lambda: ob_monomial(CRATE, "fp_to_mont", "fp_to_mont", [("a", 0)], mm, cp, ({"a": 1}, 1)),
+          lambda: ob_monomial(CRATE, "fp_from_mont", "fp_from_mont", [("a", 1)], mm, cp, ({"a": 1}, 0)),
+          lambda: ob_monomial(CRATE, "fp_inv_exponent", FE + "fp_inv", [("a", 1)], fe, cp, ({"a": P9 - 2}, 1)),
+          lambda: ob_monomial(CRATE, "mod_n_inv_exponent", "mod_n_inv", [("a", 0)], {"mod_n_mul": "mul"}, {1: 0}, ({"a": N9 - 2}, 0), functions=["gm_sm9::fields::mod_n_inv", "gm_sm9::fields::mod_n_pow"])]
     import c13_l4
     j = c13_l4.jobs(tier) + j          # the long ones first
     return j
